@@ -365,6 +365,9 @@ func (fc *fnCtx) constList(p *packages.Package, ex ast.Expr, depth int) ([]int64
 
 // lexpr translates a list-valued expression (slice / string).
 func (fc *fnCtx) lexpr(ex ast.Expr) (string, error) {
+	if s, handled, err := fc.dmxLexpr(ex); handled { // wp dmmirror (ext_dmmirror.go)
+		return s, err
+	}
 	if tv, ok := fc.p.TypesInfo.Types[ex]; ok && tv.Value != nil && tv.Value.Kind() == constant.String {
 		if id, ok := ex.(*ast.Ident); ok {
 			return fc.table(id.Name, stringBytes(constant.StringVal(tv.Value))), nil
@@ -476,6 +479,9 @@ func assignedAnywhere(p *packages.Package, obj *types.Var) bool {
 func (fc *fnCtx) mexpr(ex ast.Expr) (string, bool, error) {
 	fail := func(f string, a ...interface{}) (string, bool, error) { return "", true, fmt.Errorf(f, a...) }
 	if s, handled, err := fc.extExpr(ex); handled { // ext_k17k20.go
+		return s, true, err
+	}
+	if s, handled, err := fc.dmxMexpr(ex); handled { // wp dmmirror (ext_dmmirror.go)
 		return s, true, err
 	}
 	switch x := ex.(type) {
@@ -911,6 +917,9 @@ func (fc *fnCtx) fieldKey(x *ast.SelectorExpr) (string, string, bool) {
 		if st.Field(j).Name() == x.Sel.Name {
 			lt, err := leanTypeM(st.Field(j).Type())
 			if err != nil {
+				if flt, ok := fc.dmxFieldType(st, j); ok { // wp dmmirror: function-valued field = Int selector
+					return id.Name + "_" + x.Sel.Name, flt, true
+				}
 				return "", "", false
 			}
 			return id.Name + "_" + x.Sel.Name, lt, true
@@ -1204,6 +1213,13 @@ func (fc *fnCtx) mblock(stmts []ast.Stmt, lvl int) (string, error) {
 		}
 		var rs []string
 		for ri, r := range x.Results {
+			if vals, handled, err := fc.dmxReturnVals(ri, r); handled { // wp dmmirror: flattened []struct result
+				if err != nil {
+					return "", err
+				}
+				rs = append(rs, vals...)
+				continue
+			}
 			if st := fc.m.structRes[ri]; st != nil {
 				vals, err := fc.structValue(st, r)
 				if err != nil {
@@ -1759,6 +1775,9 @@ func (fc *fnCtx) lexprOrMake(ex ast.Expr) (string, error) {
 }
 
 func (fc *fnCtx) massign(x *ast.AssignStmt, rest []ast.Stmt, lvl int) (string, error) {
+	if s, handled, err := fc.dmxAssign(x, rest, lvl); handled { // wp dmmirror (ext_dmmirror.go)
+		return s, err
+	}
 	cont := func(prefix string) (string, error) {
 		r, err := fc.mblock(rest, lvl)
 		if err != nil {
@@ -2275,6 +2294,7 @@ func assignedIn3(stmts []ast.Stmt) (assigned, declared, whole map[string]bool) {
 			return true
 		})
 	}
+	dmxAssigned(assigned, whole) // wp dmmirror
 	return
 }
 
@@ -2342,6 +2362,7 @@ func (fc *fnCtx) usedNames(nodes []ast.Node) map[string]bool {
 			return true
 		})
 	}
+	fc.dmxUsed(nodes, used) // wp dmmirror
 	return used
 }
 
@@ -2989,6 +3010,13 @@ func genFuncM(p *packages.Package, e entry) (string, error) {
 	var params []string
 	var sparams []sparam
 	nplain := 0
+	if ferr := fc.dmxFlatten(fd); ferr != nil { // wp dmmirror (ext_dmmirror_flat.go): nested objects -> flat locals
+		return "", ferr
+	}
+	params, gerr := fc.dmxGlobals(fd, params) // wp dmmirror: init-filled package-level tables are leading parameters
+	if gerr != nil {
+		return "", gerr
+	}
 	for _, fl := range fields {
 		t := p.TypesInfo.TypeOf(fl.Type)
 		lt, err := leanTypeM(t)
@@ -3002,11 +3030,14 @@ func genFuncM(p *packages.Package, e entry) (string, error) {
 					for j := 0; j < st.NumFields(); j++ {
 						if flt, err := leanTypeM(st.Field(j).Type()); err == nil {
 							fc.declare(n.Name+"_"+st.Field(j).Name(), flt)
+						} else if flt, ok := fc.dmxFieldType(st, j); ok { // wp dmmirror
+							fc.declare(n.Name+"_"+st.Field(j).Name(), flt)
 						}
 					}
 					if isPtr {
 						fc.declare(n.Name+"_isNil", "Bool") // `x == nil`
 					}
+					fc.dmxFlatParams(n.Name) // wp dmmirror: nested structs / slices of structs below this parameter
 				}
 				continue
 			}
@@ -3032,6 +3063,7 @@ func genFuncM(p *packages.Package, e entry) (string, error) {
 	// what the function writes through its pointer parameters is part of its result
 	assigned0, _ := assignedIn(fd.Body.List)
 	var outTypes []string
+	outTypes = fc.dmxInitOuts(outTypes) // wp dmmirror: `init` returns the tables it fills
 	for _, sp := range sparams {
 		for j := 0; j < sp.st.NumFields(); j++ {
 			key := sp.name + "_" + sp.st.Field(j).Name()
@@ -3074,6 +3106,13 @@ func genFuncM(p *packages.Package, e entry) (string, error) {
 		t := p.TypesInfo.TypeOf(fl.Type)
 		lt, err := leanTypeM(t)
 		drop := false
+		fc.dmxNoteResult(t, len(fl.Names)) // wp dmmirror
+		if lts, ok := fc.dmxResultTypes(t); ok && err != nil && len(fl.Names) <= 1 { // wp dmmirror: []struct as its field lists
+			fc.m.dropRes = append(fc.m.dropRes, false)
+			rts = append(rts, lts...)
+			named = append(named, fl.Names...)
+			continue
+		}
 		if err != nil {
 			if t.String() == "error" || isErrorType(t) {
 				lt = "Bool"
@@ -3148,10 +3187,12 @@ func genFuncM(p *packages.Package, e entry) (string, error) {
 		return "", fmt.Errorf("no translatable result")
 	}
 	fc.m.retType = strings.Join(rts, " × ")
+	fc.dmxScanTracked(fd) // wp dmmirror: locals whose capacity the function observes
 	body, err := fc.mblock(fd.Body.List, 1)
 	if err != nil {
 		return "", err
 	}
+	body = fc.dmxBody(body)
 	var recvFields []string
 	for i := len(sparams) - 1; i >= 0; i-- {
 		sp := sparams[i]
@@ -3169,6 +3210,10 @@ func genFuncM(p *packages.Package, e entry) (string, error) {
 			fps = append([]string{fmt.Sprintf("(%s_isNil : Bool)", sp.name)}, fps...)
 		}
 		params = append(params[:sp.at], append(fps, params[sp.at:]...)...)
+	}
+	params, nerr := fc.dmxNestedParams(fd, params) // wp dmmirror
+	if nerr != nil {
+		return "", nerr
 	}
 	if fc.m.fuelUsed {
 		params = append([]string{"(fuel : Nat)"}, params...)
@@ -3197,6 +3242,7 @@ func genFuncM(p *packages.Package, e entry) (string, error) {
 		}
 	}
 	extRegister(e, fd, fc, nres) // ext_k17k20.go
+	fc.dmxRegister(e, fd, nres) // wp dmmirror: callable with struct arguments / init tables / fuel
 	return fc.emit(e.pkg+"."+e.name, params, body), nil
 }
 
